@@ -375,6 +375,10 @@ class TagsStream(runner.Stream):
             "tags set a:C0:bool,b:-:int!",
             "tags seq a:P1:null,b:-:bool!,c:-:int!",
             "tags set a:C0:bool,...,b:-:int!",
+            # the name of the last root component is a proper prefix of an earlier component's name
+            "tags set a1:-:int,b:-:bool,a:-:bool?,...,c:-:int?", "tags seq a1:-:int,b:-:bool,a:-:bool?,...,c:-:int?",
+            "tags set a12:C2:int,a1:C1:bool,a:C0:int!,...,c:C5:int?", "tags seq a10:-:int,a1:-:bool!,...,a:-:int?",
+            "tags set b2:P1:int,a:A3:bool,b:C0:bool?,...,b1:C7:int?,b22:C6:bool?", "tags set a1:-:int,a:-:bool?,...",
             "tags set a:-:bool",                                         # was tags.set-own-tag
             "tags set a:C1:bool,b:C0:int", "tags set a:-:bool,...,b:-:int", "tags seq a:-:bool",
             # extension additions keep their textual order (was uper.set_additions_sorted, C05:
